@@ -845,7 +845,7 @@ def time_cases(rng, tier):
     cases = []
     gpool, upool = [], []            # (t, frac, spellings)
     for i, (t, frac) in enumerate(GT_DIRECTED):
-        sps = gt_spellings(t, frac, rng, full=(not quick or i < 10), tzs=TIME_TZS)
+        sps = gt_spellings(t, frac, rng, full=(not quick or i < 5), tzs=TIME_TZS)
         gpool.append((t, frac, sps))
     for _ in range(30 if quick else 300):
         t, frac = random_gt(rng)
@@ -863,7 +863,7 @@ def time_cases(rng, tier):
     for kind, tn, pool, ndir in (("gt", "G", gpool, len(GT_DIRECTED)), ("ut", "U", upool, len(UT_DIRECTED))):
         for i, (t, frac, sps) in enumerate(pool):
             chosen = sps
-            cap = (10**9 if i < 10 else 40) if i < ndir else 12
+            cap = (10**9 if i < 5 else 40) if i < ndir else 12
             if quick and len(sps) > cap:
                 # the directed forms (one of each zone form x precision) first, random after
                 seen, first, rest = set(), [], []
@@ -976,6 +976,10 @@ def time_layer(run, rng, tier, model):
                 if got == want:
                     continue
                 tree = enc(s, tn, v, "tree")
+                if got.startswith("!") and s in ("der", "cxer") and any(lf["t"] == -1 for lf in ls):
+                    # asn_GT2time_frac / asn_UT2time answer the error value for t = -1 (also reached by UTCTime once C06-fix-7 is in)
+                    run.known_finding("C17-time-minus-one", "TZ=%s %s" % (tz_string(tz), l))
+                    continue
                 if (got.startswith("!") and tree.startswith("!")) or got == tree:
                     ids = time_findings(tn, v, s)
                     if ids:
